@@ -159,10 +159,19 @@ def free_search(chk, stats, n_sched):
             m = rng.randrange(1, 4)
             schedule = [1] * j + [0] * i + [1] * m + [0] * 60 + [1] * 60
             sched_text = "thread 1: %d stops, thread 0: %d stops, thread 1: %d more, then both to the end" % (j, i, m)
+        # every third schedule: thread 1 probes, calls and leaves TWICE (a fresh probe on the same variable) while
+        # thread 0 is somewhere in its own activation / call / deactivation
+        twice = k % 3 == 2
+        if twice:
+            sels, owns = CONFIGS[0]
+            schedule = [0] * i + [1] * 400 + [0] * 60
+            sched_text = "thread 0: %d stops, thread 1 to the end (two rounds of probe / call / leave), then thread 0" % i
         mod = pyprog.make_module(SRC, "verif_c08_free")
         orig = mod.f.__code__
         probes = [ptera.Probe(s, env=mod.__dict__) for s in sels]
         outs = [p.accum() for p in probes]
+        again = ptera.Probe(sels[1], env=mod.__dict__)
+        out_again = again.accum()
         rets = [None, None]
         args = [3, 4]
 
@@ -171,6 +180,10 @@ def free_search(chk, stats, n_sched):
             ctrl.arrive(tid, ("call", 0))          # a scheduling point between activation and call
             rets[tid] = mod.f(args[tid])
             probes[tid].__exit__(None, None, None)
+            if twice and tid == 1:
+                again.__enter__()
+                mod.f(args[tid])
+                again.__exit__(None, None, None)
         try:
             S.run_free([worker, worker], stops, schedule)
         except S.Stuck:
@@ -190,6 +203,9 @@ def free_search(chk, stats, n_sched):
                 chk.violation("oracle", "thread %d (probe %r) observed %r and got %r; sequentially it observes %r and gets %r" % (
                     tid, sels[tid], list(outs[tid]), rets[tid], expected_events(sels[tid], args[tid]), (args[tid] + 1) * 2),
                     {"selectors": sels, "schedule": sched_text})
+        if twice and list(out_again) != expected_events(sels[1], args[1]):
+            chk.violation("oracle", "thread 1, second round (a fresh probe %r): observed %r; sequentially it observes %r" % (
+                sels[1], list(out_again), expected_events(sels[1], args[1])), {"selectors": sels, "schedule": sched_text})
         if not final["orig"] or final["count"] != 0 or final["caps"]:
             chk.violation("oracle", "all threads finished but f: original code=%s instrument_count=%s captures=%s" % (
                 final["orig"], final["count"], final["caps"]),
@@ -267,6 +283,10 @@ def run(chk):
             if r["bad_schedule"] is not None:
                 run_one(chk, drv, sels, owns, r["bad_schedule"] + [0] * plen + [1] * plen, lines, stats,
                         names_for[CONFIGS.index((sels, owns))])
+    # ---- model-free forced interleavings as well (they include a thread that probes / calls / leaves twice)
+    fstats = {"schedules": 0, "steps": 0, "disagreements": 0, "stuck": 0}
+    free_search(chk, fstats, 18 if chk.tier == "quick" else 300)
+    chk.cov["correspondence"]["model_free_schedules"] = fstats
     if chk.tier == "thorough":
         r3 = drv.ask({"op": "sched", "owns": [[0], [1], [0, 2]], "fuel": 400})
         chk.cov["model_search"]["three_threads_bad_schedule"] = r3["bad_schedule"]
